@@ -1,4 +1,8 @@
 # C09 — a persistent actor recovers exactly the state it had when it last persisted
+import json
+import os
+import re
+
 import vlib
 
 TRUSTED = [
@@ -10,6 +14,17 @@ TRUSTED = [
     "are about; the actor that records before applying is covered by C09_record_first_recovery_refuted (open finding)",
     "sequential histories: one step at a time (blocking asks from one goroutine), restart decided at once by the supervisor; "
     "lifecycle interleavings are C03-C05's subject",
+    "hand-written machine coq/C09/OrderModel.v (the routine that ends a generation = the list of its statements; persist = begin + commit; "
+    "observers on other goroutines; OnLaunch posted to the own mailbox is processed after the routine has returned — mailbox/lock_free.go "
+    "handles one message at a time); tie T3 (harness/translate/c09order, go/ast, syntactic, engine/vivid/actor_context.go of the tree under "
+    "test): the statements of tryTerminated and tryRestarted are classified by callee name (persist = a call whose name contains 'persist'; "
+    "announce = rc.Unregister, deliverySystemMessage in `range ctx.watchers` / to ctx.parentRef / of onLaunch, close(x.closed), "
+    "processMessage(onLaunch) / recoveryPersistence inline) and order_safe is proved of the extracted order by vm_compute on every run; a "
+    "persist or an announce hidden behind another helper, reflection or a renamed callee is not seen (a persist that is not found breaks the "
+    "obligation; an announce that is not found breaks it only if its kind disappears altogether); Storage.Save is assumed to have committed "
+    "when it returns",
+    "tie T1 of the order model (harness/cmd/c09persist -family notice): real ActorSystem, a storage whose Save sleeps 0..25 ms of real time, "
+    "observers that re-create inside OnTerminated / right after Shutdown returns; the interleavings explored are those the Go runtime produces",
     "Go harness + generators + monitors (harness/cmd/c09persist, harness/vh), bin/check, lib/vlib.py",
     "Go runtime (slice append/copy semantics; the model is proved for every capacity growth policy)",
 ]
@@ -22,29 +37,154 @@ MANIFEST = {
             "followed by exactly the events recorded since, in order, each once; replay leaves the journal and the event count unchanged; "
             "StateChanged leaves ctx.Message()/ctx.Sender() unchanged in every context. Proved in Coq for an executable model with an "
             "explicit heap of slice backing arrays (MemoryStorage keeps the caller's slice: the aliasing is proved unobservable), by "
-            "refinement to an abstract journal; the model is run against the real ActorSystem on every check.",
+            "refinement to an abstract journal; the model is run against the real ActorSystem on every check. "
+            "Ordering across goroutines: for a storage whose Save is not instantaneous (begin, commit; Load returns the committed record) "
+            "and observers that re-create the actor under the same persistence name the moment the end of a generation is observable "
+            "(unregistration, Terminated notice to a watcher or the parent, the closed signal behind Shutdown, the launch of the new "
+            "instance after a restart), every routine whose persist has returned before its first such statement — none deferred, none on "
+            "another goroutine, none later — makes every generation load exactly what the previous one ended with, under every schedule "
+            "and any mix of terminations and restarts (Coq, invariant over an interleaving machine); announce-then-persist and an "
+            "asynchronous persist are refuted by schedules. On every run the statement order of tryTerminated and tryRestarted is extracted "
+            "from the tree under test (go/ast) and proved to satisfy that condition, and a real ActorSystem with a slow storage is driven "
+            "through generations re-created inside OnTerminated (parent, watcher) and right after Shutdown returns.",
     "note": "Theorems are about the repaired code (fixes/C09-journal-seed.patch, fixes/C09-restore-message.patch; the unrepaired tree "
             "fails the check with replay files) and about the actor that applies an event before recording it; for the actor that "
             "records first the property is refuted in the model and on the implementation (checks/c09_findings.json). Trusted: the "
-            "hand-written model (tied by differential runs only), the harness, sequential driving of the system.",
-    "technique": "Coq proof (heap/slice model refines an abstract journal, induction over histories) + differential runs on the real ActorSystem + Go-side monitors",
+            "hand-written models (tied by differential runs and, for the order of the termination/restart routines, by a syntactic "
+            "extraction), the harness, sequential driving of the system in the history runs, real-time latencies in the notice runs.",
+    "technique": "Coq proof (heap/slice model refines an abstract journal, induction over histories; interleaving machine with two-step Save, "
+                 "invariant) + go/ast extraction of the statement order (vm_compute obligation) + differential runs on the real ActorSystem "
+                 "+ Go-side monitors",
 }
+
+T3_NAMES = ["C09_source_terminate_order", "C09_source_restart_order", "C09_source_persist_synchronous",
+            "C09_recreate_on_notice_exact_for_this_source"]
 
 
 def harnesses():
     # the actor that records before it applies violates the property by an open finding; its stream is run once that
     # finding is listed in known_findings.json (then every run reports it as KNOWN-FINDING with a reproduction count)
     on = any(f.get("id") == FINDING for f in vlib.known_findings("C09"))
-    return [{"pkg": "c09persist", "sub": "persist", "args": ["-recordfirst"] if on else []}]
+    return [{"pkg": "c09persist", "sub": "persist", "args": ["-recordfirst"] if on else []},
+            {"pkg": "c09persist", "sub": "notice", "args": ["-family", "notice"]}]
 
 
 HARNESSES = harnesses()
 
 
+def _nats(out, name):
+    m = re.search(name + r"\s*=(.*?):\s*list nat", out, re.S)
+    return [int(x) for x in re.findall(r"\d+", m.group(1))] if m else []
+
+
+def _why(f, earlier_now):
+    k = f["kind"]
+    if k == "go-persist":
+        return "the persist runs on another goroutine (or inside a function literal nobody waits for)"
+    if k == "defer-persist":
+        return "the persist is deferred: it runs when the routine returns, i.e. after every statement below it"
+    if k == "persist":
+        if f["conditional"]:
+            return "the persist sits inside a conditional: it may not run"
+        return "the persist comes after the end of the generation is already observable (%s)" % earlier_now
+    if k.startswith("announce:"):
+        return "makes the end of the generation observable (%s) before any persist has returned" % k.split(":", 1)[1]
+    return k
+
+
+def run_t3(ctx):
+    """Tie T3: extract the statement order of tryTerminated / tryRestarted from the tree under test, compile the facts and the
+    instance theorems. Returns (ok, message, facts)."""
+    d = os.path.join(ctx.scratch, "t3")
+    os.makedirs(d, exist_ok=True)
+    try:
+        exe = vlib.go_build(ctx, "./translate/c09order", name="c09order")
+    except vlib.CheckError as e:
+        return False, "T3: cannot build harness/translate/c09order: %s" % str(e)[-800:], None
+    src = os.path.join(vlib.REPO, "engine/vivid/actor_context.go")
+    rc, o, e, _ = vlib.sh([exe, "-repo", vlib.REPO, "-out", d], timeout=120)
+    if rc != 0:
+        return False, "T3: the routines that end a generation (tryTerminated, tryRestarted) cannot be read from %s: %s" % (src, (o + e)[-800:]), None
+    facts = json.loads(o.strip().splitlines()[-1])
+    ctx.extra["t3_order"] = {fn: ["%d:%s%s" % (f["line"], f["kind"], "?" if f["conditional"] else "") for f in facts[fn] if f["kind"] != "other"]
+                             for fn in ("tryTerminated", "tryRestarted")}
+    ctx.extra["t3_persist_chain"] = facts["persist_chain"]
+    coqc = ["coqc", "-Q", vlib.COQ, "MV", "-Q", d, ""]
+    rc, o1, e1, _ = vlib.sh(coqc + [os.path.join(d, "Extracted.v")], cwd=d, timeout=900)
+    if rc != 0:
+        return False, "T3: the extracted facts do not compile against MV.C09.OrderModel: %s" % (o1 + e1)[-800:], facts
+    rc, o2, e2, _ = vlib.sh(coqc + [os.path.join(d, "Instance.v")], cwd=d, timeout=900)
+    if rc == 0:
+        bad = vlib.FORBIDDEN.search(vlib.strip_comments(open(os.path.join(d, "Extracted.v")).read() + open(os.path.join(d, "Instance.v")).read()))
+        closed = len(re.findall(r"Closed under the global context", o2))
+        if bad or closed != len(T3_NAMES):
+            return False, "T3: instance theorems not closed under the global context:\n" + o2[-800:], facts
+        return True, "", facts
+    # broken: name the function and the offending statements
+    parts = []
+    for fn, offname, thm in (("tryTerminated", "TermOffenders", "C09_source_terminate_order"),
+                             ("tryRestarted", "RestartOffenders", "C09_source_restart_order")):
+        lines = _nats(o1, offname)
+        fs = facts[fn]
+        kinds = {f["kind"] for f in fs}
+        missing = []
+        if fn == "tryTerminated":
+            missing = [k for k in ("announce:unregister", "announce:watchers", "announce:parent", "announce:closed") if k not in kinds]
+        elif not ({"announce:launch", "announce:launch-inline"} & kinds):
+            missing = ["announce:launch (OnLaunch posted to the own mailbox or handled inline)"]
+        if not lines and not missing:
+            continue
+        offs = []
+        for ln in lines:
+            for f in fs:
+                if f["line"] == ln and f["kind"] != "other" and f["kind"] != "guard":
+                    earlier = ", ".join("%s at line %d" % (g["kind"].split(":", 1)[1], g["line"]) for g in fs
+                                        if g["kind"].startswith("announce:") and g["kind"] != "announce:launch" and g["line"] < ln)
+                    offs.append("line %d `%s`: %s" % (ln, f["text"], _why(f, earlier)))
+                    break
+        order = " ; ".join("%d %s%s" % (f["line"], f["kind"], " (conditional)" if f["conditional"] and "persist" in f["kind"] else "")
+                           for f in fs if f["kind"] not in ("other", "guard"))
+        parts.append("T3 obligation %s is broken by %s of %s — %s%s. Extracted order: [%s]" % (
+            thm, fn, src, "; ".join(offs) if offs else "no offending statement",
+            (" ; not found any more: %s (the translator cannot see how the end becomes observable)" % missing) if missing else "", order))
+    chain_bad = [c["what"] for c in facts["persist_chain"] if not c["ok"]]
+    if chain_bad or not facts["persist_chain"]:
+        parts.append("T3 obligation C09_source_persist_synchronous is broken: %s" % (chain_bad or "ctx.Persistence() not found"))
+    msg = ("The ordering 'the last persist of a generation has been committed before the end of that generation becomes observable "
+           "(unregistration, Terminated notices, the closed signal, the launch of the next instance) and before the next generation loads' is "
+           "no longer established for this source, so C09_recreate_on_notice_exact does not apply to it; for a persist that runs after the "
+           "announce see C09_announce_then_persist_refuted / C09_restart_launch_then_persist_refuted (a re-creation on the notice loads a "
+           "missing or stale record when Storage.Save takes time). ")
+    return False, msg + " || ".join(parts) + " || coqc: " + (o2 + e2)[-300:].replace("\n", " "), facts
+
+
+def t3(ctx):
+    ctx.obligations += len(T3_NAMES)
+    ok, msg, _ = run_t3(ctx)
+    if not ok:
+        ctx.proof_errors.append(msg)
+        return
+    for n in T3_NAMES:
+        ctx.theorems.append(n)
+        ctx.axioms[n] = []
+        ctx.discharged += 1
+
+
 def check(ctx):
     return vlib.standard_check(ctx, ["C09"], "C09/Properties.v", harnesses(), TRUSTED, "DESIGN.md §6 C09",
-                               chk_modules=["MV.C09.Properties"])
+                               checker_extra="; go run harness/translate/c09order && coqc Extracted.v Instance.v (statement order of "
+                                             "tryTerminated / tryRestarted of the tree under test satisfies order_safe)",
+                               chk_modules=["MV.C09.Properties"], pre=t3)
 
 
 def replay(ctx, path):
-    return vlib.standard_replay(ctx, {"persist": "c09persist"}, path)
+    d = json.load(open(path))
+    if "broken_obligations" in d and not d.get("sub"):
+        # a run whose proof obligations broke without a failing input: re-establish (or not) the obligations on the present tree
+        ok = vlib.coq_make(ctx, ["Lib", "C09"])
+        t3ok, msg, facts = run_t3(ctx) if ok else (False, "coq build failed", None)
+        print(json.dumps({"broken_obligations_recorded": [b[:400] for b in d.get("broken_obligations") or []],
+                          "order_obligations_hold_now": t3ok, "now": msg[:1500],
+                          "order_now": ctx.extra.get("t3_order")}))
+        return 0 if t3ok else 1
+    return vlib.standard_replay(ctx, {"persist": "c09persist", "notice": "c09persist"}, path)
